@@ -35,6 +35,8 @@ structure EG where
   outgoing : Outgoing := []
   now : Nat := 0
   sent : List (Nat × Addr × Bytes) := []   -- (time, destination, datagram): monotone history
+  idLog : List (Dest × (Bool × Nat)) := [] -- ghost: every (reboot flag, session id) drawn for a notification, with its destination
+  rounds : List (List Addr × Nat) := []    -- ghost: the subscribers at the start of each notification round, and the length of `sent` then
 deriving Repr, Inhabited
 
 namespace EG
@@ -43,6 +45,11 @@ def setValue (g : EG) (ev : Nat) (v : Bytes) : EG :=
   if g.values.any (fun p => decide (p.1 = ev)) then
     { g with values := g.values.map (fun p => if p.1 = ev then (ev, v) else p) }
   else { g with values := g.values ++ [(ev, v)] }
+
+/-- the notification for event `ev` with session id `sess`: service id, method id 0x8000 | event, client 0, the major
+version as interface version, type NOTIFICATION (return code OK, protocol version 1 by default) -/
+def notif (g : EG) (ev sess : Nat) (payload : Bytes) : Header :=
+  { sid := g.serviceId, mid := 0x8000 ||| ev, cid := 0, sess := sess, iv := g.major, mt := .notification, payload := payload }
 
 /-- the loop body of `_notify_single`: one message per event, one session id each; an unknown event
 id (KeyError, logged) aborts the task: nothing is sent but the ids already taken stay consumed -/
@@ -53,11 +60,26 @@ def buildMsgs (g : EG) (ep : Addr) : List Nat → Outgoing → Bytes → Option 
     | none => (none, out)
     | some payload =>
       let a := assignOutgoing out (some ep)
-      let h : Header := { sid := g.serviceId, mid := 0x8000 ||| ev, cid := 0, sess := a.1.2, iv := g.major,
-                          mt := .notification, payload }
+      let h : Header := g.notif ev a.1.2 payload
       match h.build with
       | none => (none, a.2)
       | some b => buildMsgs g ep r a.2 (acc ++ b)
+
+/-- ghost mirror of `buildMsgs`: the (flag, id) pairs it draws, in order -/
+def idsTaken (g : EG) (ep : Addr) : List Nat → Outgoing → List (Bool × Nat)
+  | [], _ => []
+  | ev :: r, out =>
+    match alookup g.values ev with
+    | none => []
+    | some payload =>
+      let a := assignOutgoing out (some ep)
+      let h : Header := g.notif ev a.1.2 payload
+      match h.build with
+      | none => [a.1]
+      | some _ => a.1 :: idsTaken g ep r a.2
+
+def logIds (g : EG) (ep : Addr) (ids : List (Bool × Nat)) : EG := { g with idLog := g.idLog ++ ids.map (fun x => (some ep, x)) }
+def logRound (g : EG) : EG := { g with rounds := g.rounds ++ [(g.subscribed, g.sent.length)] }
 
 def evList (g : EG) : EvSel → List Nat
   | .allKeys => g.values.map (·.1)
@@ -67,12 +89,13 @@ def evList (g : EG) : EvSel → List Nat
 def runTask (g : EG) : NTask → EG
   | .single ep sel =>
     let r := buildMsgs g ep (g.evList sel) g.outgoing []
+    let g := g.logIds ep (g.idsTaken ep (g.evList sel) g.outgoing)
     match r.1 with
     | none => { g with outgoing := r.2 }
     | some (out, buf) =>
       if buf.isEmpty then { g with outgoing := out }
       else { g with outgoing := out, sent := g.sent ++ [(g.now, ep, buf)] }
-  | .all sel => { g with pending := g.pending ++ g.subscribed.map (fun ep => NTask.single ep sel) }
+  | .all sel => { g.logRound with pending := g.pending ++ g.subscribed.map (fun ep => NTask.single ep sel) }
   | .cycStep =>
     match g.cyc with
     | .created => { g with cyc := if g.hasClients then .sleeping (g.now + g.interval) else .waitClients }
